@@ -271,6 +271,7 @@ def check_search(ctx, out, rule="C01.search"):
     n = 0
     samples = []
     evals = 0
+    kinds_seen = set()
     for b, bi, t in O.sites(ctx.facts, ctx.reachable_bodies()):
         ty = (t.get("arg_tys") or [""])[0]
         if "LineChange" in ty:
@@ -279,6 +280,7 @@ def check_search(ctx, out, rule="C01.search"):
             kind = "range"
         else:
             continue
+        kinds_seen.add(kind)
         nm = (t.get("def") or "").split("::")[-1]
         if nm in ("binary_search", "binary_search_by_key"):
             n += 1
@@ -308,7 +310,9 @@ def check_search(ctx, out, rule="C01.search"):
                         n += 1
                     else:
                         out.viol(rule, "%s|%s|take_while" % (rule, b.id), ctx.where(b, t["span"]), "the take_while bound over the sorted line changes is %s" % detail)
-    out.inst(rule, n, 3, samples, note="%d model evaluations" % evals, exhaustive=True)
+    # the anchor: at least one ordered search over the line changes and one over a line's changed ranges
+    # (fewer sites than today's - one shared helper for both kinds of span - are the same searches)
+    out.inst(rule, n if kinds_seen >= {"line", "range"} else min(n, 1), 2, samples, note="%d model evaluations" % evals, exhaustive=True)
 
 
 def check_affects(ctx, out):
